@@ -128,7 +128,14 @@ fn run_hist<B: StarkField, H: ElementHasher<BaseField = B>, D: DrawExt<B>>(hname
                 json!({"ev": "clz", "id": o.a, "nonce": n.to_le_bytes().to_vec(), "res": z, "calls": calls_json()})
             },
             "ints" => {
-                let n = INT_NONCES[(o.a as usize - 1) % 3];
+                // over a field whose modulus several multiples of fit into 64 bits (the 62-bit field) the two large nonces are congruent
+                // modulo it: M + 9 and 3M + 9 differ only in the quotient limb the hasher absorbs
+                let n = if B::MODULUS_BITS < 64 {
+                    let m62: u64 = 4611624995532046337; // the modulus of the 62-bit field
+                    [7, m62 + 9, 3 * m62 + 9][(o.a as usize - 1) % 3]
+                } else {
+                    INT_NONCES[(o.a as usize - 1) % 3]
+                };
                 let m = o.b as usize;
                 let mut lg = LGS[(idx + i) % LGS.len()];
                 while (1u64 << lg) <= m as u64 {
